@@ -931,10 +931,14 @@ class FilePath(AbstractFilePath[AnyStr]):
         @return: The child path.
         @rtype: L{FilePath} with a mode equal to the type of C{path}.
         """
+        sep = _coerceToFilesystemEncoding(path, os.sep)
         ourPath = self._getPathAsSameTypeAs(path)
 
         newpath = abspath(joinpath(ourPath, normpath(path)))
-        if not newpath.startswith(ourPath):
+        # Compare whole path segments: "/a/bc" starts with "/a/b" but is not
+        # inside it.
+        prefix = ourPath if ourPath.endswith(sep) else ourPath + sep
+        if newpath != ourPath and not newpath.startswith(prefix):
             raise InsecurePath(f"{newpath!r} is not a child of {ourPath!r}")
         return self.clonePath(newpath)
 
